@@ -351,6 +351,43 @@ func (e *seqEngine) Exec(op *Op) string {
 			return "err"
 		}
 		return "ok reclaimed=" + strconv.FormatInt(reclaimed, 10)
+	case "acct":
+		// C13: current locations (named by live index entries), recorded locations (freelist pool + file + .gc)
+		var cur []string
+		idx := e.st.Index()
+		for _, b := range idx.VerifNonEmptyBuckets() {
+			data, ok, err := idx.VerifBucketRecords(b)
+			if err != nil {
+				return "err"
+			}
+			if !ok {
+				continue
+			}
+			rl := index.NewRecordListRaw(data)
+			it := rl.Iter()
+			for !it.Done() {
+				r := it.Next()
+				cur = append(cur, fmt.Sprintf("%d:%d", r.Block.Offset, r.Block.Size))
+			}
+		}
+		sort.Strings(cur)
+		var fl []string
+		for _, b := range e.st.VerifFreeList().VerifPool() {
+			fl = append(fl, fmt.Sprintf("%d:%d", b.Offset, b.Size))
+		}
+		for _, name := range []string{e.indexPath + ".free", e.indexPath + ".free.gc"} {
+			data, err := os.ReadFile(name)
+			if err != nil {
+				continue
+			}
+			for i := 0; i+12 <= len(data); i += 12 {
+				fl = append(fl, fmt.Sprintf("%d:%d", binary.LittleEndian.Uint64(data[i:]), binary.LittleEndian.Uint32(data[i+8:])))
+			}
+		}
+		sort.Strings(fl)
+		return "cur=" + strings.Join(cur, ",") + " fl=" + strings.Join(fl, ",")
+	case "c11mark", "c11end", "c11round":
+		return "ok"
 	case "sizes":
 		i, err1 := e.st.IndexStorageSize()
 		p, err2 := e.st.PrimaryStorageSize()
